@@ -31,6 +31,13 @@ Drop list (nothing else is changed; the report counts every edit):
   D7 `pub struct TypeId(u64);` is written `pub struct TypeId(pub u64);` so the
      specification can speak about the number; SchemaWrapper and
      TypeEntryNative (private fields) are registered opaquely instead
+  D8 the last two statements of `convert_ref_type` (the unconditional
+     `name_to_id.insert` and the `id_to_entry.insert`) are copied as a statement
+     slice and wrapped as `fn convert_ref_type_tail(&mut self, type_entry, type_id)`;
+     the slice text is byte-identical, the wrapper is synthetic
+  D9 ghost `proof { assert(..) }` hints from contracts/<fn>.hints are appended at the
+     end of a unit-returning body (ghost code is erased from the executable; the
+     count is reported)
   D6 a function's return type `-> T` is written `-> (r: T)` (Verus' syntax for
      naming the result in `ensures`); the body is untouched
 exit 0 ok, exit 2 lost anchor / body uses something outside the subset.
@@ -225,12 +232,46 @@ def main():
                 if re.search(r"\bself\s*\.\s*%s\b" % other, body_clean):
                     raise Lost("TypeSpace::%s mentions field `%s` outside the allocator subset" % (f, other))
 
+        # D8: a contiguous statement slice of convert_ref_type (its last two statements: the
+        # unconditional by-name index update and the entry insert), wrapped as a function whose
+        # parameters are the slice's free variables.
+        sp = find_item(lib, r"^    fn convert_ref_type\b", lib_c)
+        if not sp:
+            raise Lost("fn convert_ref_type")
+        body = lib[sp[0]:sp[1]]
+        m1 = re.search(r"^        if let Some\(entry_name\) = type_entry\.name\(\) \{\n", body, re.M)
+        m2 = re.search(r"^        self\.id_to_entry\.insert\(type_id, type_entry\);\n", body, re.M)
+        if not m1 or not m2 or m2.start() < m1.start():
+            raise Lost("convert_ref_type tail slice (name index update + entry insert)")
+        tail_text = body[m1.start():m2.end()]
+        a0 = sp[0] + m1.start()
+        l1 = lib.count("\n", 0, a0) + 1
+        l2 = l1 + tail_text.count("\n") - 1
+        tail_after = drop_list(tail_text.rstrip("\n"), rep)
+        rep.add("TypeSpace::convert_ref_type [tail slice]", lib_path, tail_text, tail_after, l1, l2)
+        if re.search(r"\bself\s*\.\s*(%s)\b" % "|".join(OTHER_FIELDS), strip_strings_and_comments(tail_after)):
+            raise Lost("convert_ref_type tail slice mentions a field outside the allocator subset")
+        fns["convert_ref_type_tail"] = ("    fn convert_ref_type_tail(&mut self, type_entry: TypeEntry, type_id: TypeId) {\n"
+                                        + tail_after + "\n    }")
+
         def spec(name):
             p = os.path.join(HERE, "contracts", name + ".spec")
             return open(p).read().rstrip() + "\n" if os.path.exists(p) else ""
 
+        ghost_lines = [0]
+
         def fn_with_contract(key, text):
             sig, body = split_fn(text)
+            # D9: ghost proof hints (erased from the executable) appended at the end of a
+            # unit-returning body, from contracts/<fn>.hints
+            hp = os.path.join(HERE, "contracts", key + ".hints")
+            if os.path.exists(hp):
+                if ") ->" in sig:
+                    raise Lost("hints are only supported for unit-returning functions: " + key)
+                hints = open(hp).read().rstrip()
+                k = body.rstrip().rfind("}")
+                body = body[:k] + "    proof {\n" + "".join("            " + l + "\n" for l in hints.split("\n")) + "        }\n    }"
+                ghost_lines[0] += hints.count("\n") + 1
             return sig + "\n" + "".join("        " + l + "\n" if l.strip() else "\n" for l in spec(key).split("\n")) + "    " + body.lstrip()
 
         prelude = open(os.path.join(HERE, "prelude.rs")).read()
@@ -253,7 +294,7 @@ def main():
         g.append("impl TypeEntry {\n" + fn_with_contract("name", fns["name"]) + "\n}\n\n")
         g.append("impl From<TypeEntryDetails> for TypeEntry {\n" + fn_with_contract("from_details", fns["from_details"]) + "\n}\n\n")
         g.append("impl TypeSpace {\n")
-        for f in FUNCS:
+        for f in FUNCS + ["convert_ref_type_tail"]:
             g.append(fn_with_contract(f, fns[f]) + "\n\n")
         g.append("}\n")
         g.append("\n} // verus!\n\nfn main() {}\n")
@@ -266,7 +307,7 @@ def main():
             json.dump({"error": str(e)}, open(report_path, "w"))
         sys.exit(2)
     r = {"items": rep.items, "extracted_lines": rep.extracted_lines, "deleted_lines": rep.deleted_lines,
-         "pub_crate_widened": rep.rewritten, "bodies_rewritten": 0}
+         "pub_crate_widened": rep.rewritten, "bodies_rewritten": 0, "ghost_hint_lines_inserted": ghost_lines[0]}
     if report_path:
         json.dump(r, open(report_path, "w"), indent=1)
     print("extract: %d items, %d lines extracted, %d deleted (comments/attributes), %d `pub(crate)` widened, 0 bodies rewritten"
